@@ -1,3 +1,4 @@
+(* use: util_isa *)
 (* driver of the generated-model oracle (extracted Gen/*.v) *)
 let isa_case _ line =
   let f = fields line in
